@@ -68,3 +68,10 @@ Theorem C16_stampede_guard_key_distinct : forall base typed ig a kw a' kw',
   args_to_key base a kw typed ig ++ stampede_suffix <> args_to_key base a' kw' typed ig.
 Proof. exact stampede_guard_distinct. Qed.
 Print Assumptions C16_stampede_guard_key_distinct.
+
+(* functions memoized WITHOUT name= get the base full_name(func) = module.qualname (generated from core.py):
+   two functions of one module with different qualified names never share an entry, whatever their arguments *)
+Theorem C16_derived_names_never_share : forall m q1 q2 a1 kw1 a2 kw2 typed ig,
+  args_to_key [EStr (full_name m q1)] a1 kw1 typed ig = args_to_key [EStr (full_name m q2)] a2 kw2 typed ig -> q1 = q2.
+Proof. exact derived_names_never_share. Qed.
+Print Assumptions C16_derived_names_never_share.
